@@ -157,6 +157,14 @@ class IncludeContracts:
             for c in inc.cells("quick"):
                 if c["k"] in ("twice", "nested", "middle"):
                     inc.run(env, c)
+            # parse must drop blank and comment-only lines and nothing else, in the main file and in included files
+            plain = ["        ORG $0E00\n", "A       LDA #1\n", "        BRA A\n", "B       RTS\n"]
+            noisy = ["; header\n", "\n", plain[0], "   ; indented comment\n", plain[1], "\n", plain[2], "; x\n", plain[3], "  \n"]
+            a, b = assemble(env, noisy), assemble(env, plain)
+            env.ensure("C19:parse-drops-only-blank-and-comment-lines", _view(a) == _view(b), ("C19",), lambda: "comment/blank lines: %s vs %s" % (a.status, b.status))
+            main = [plain[0], "        INCLUDE body.asm\n", plain[3]]
+            c = assemble(env, main, fs={"body.asm": ["; c\n", plain[1], "\n", plain[2]]})
+            env.ensure("C19:parse-drops-only-blank-and-comment-lines", _view(c) == _view(b), ("C19",), lambda: "included comment/blank lines: %s" % c.status)
             return
         getattr(self, "s_" + cell["fn"])(env, cell)
 
